@@ -729,6 +729,26 @@ func (c *Ctx) VerifyFunction(key string) (*FuncReport, error) {
 			}
 			run.lets[l.Label] = v
 		}
+		for _, sg := range ct.Shared {
+			v, err := c.evalSpec(env, sg.Expr)
+			if err != nil {
+				return nil, fmt.Errorf("CONTRACT-ERROR %s: %v", sg.Line, err)
+			}
+			lk, err := c.evalSpec(env, sg.Lock)
+			if err != nil {
+				return nil, fmt.Errorf("CONTRACT-ERROR %s: %v", sg.Line, err)
+			}
+			sr := sharedRef{name: sg.Name, ref: v.t, lock: lk.t}
+			switch v.typ.Underlying().(type) {
+			case *types.Map:
+			case *types.Slice:
+				sr.slice = true
+				sr.ref = T(SInt, "(sl_arr %s)", v.t.S)
+			default:
+				return nil, fmt.Errorf("CONTRACT-ERROR %s: shared %s is neither a map nor a slice", sg.Line, sg.Name)
+			}
+			run.shared = append(run.shared, sr)
+		}
 		if tok := ct.Opts["token"]; tok != "" {
 			// a goroutine body that is started with a wait-group registration holds one token
 			e, err := ParseSpecExpr(tok)
